@@ -138,6 +138,9 @@ rt_full!(rt_full_gp, GP<u64, 2>, 0, 32, 4);
 // @h rt_full_ge props=C01,C05,C06,C07,C15 tier=quick kind=complete vars="v:GE<Option<u8>>, pos0<16" fns="derive:GE"
 rt_full!(rt_full_ge, GE<Option<u8>>, 0, 48, 3);
 
+// @h rt_full_ed props=C01,C05,C06,C07,C15 tier=quick kind=complete vars="v:ED (explicit discriminants 1,2,5), pos0<16" fns="derive:ED (enum tags)"
+rt_full!(rt_full_ed, ED, 0, 32, 3);
+
 // ---------------------------------------------------------------- sequences (bounded stand-ins)
 
 // @h rt_full_vec_u16 props=C01,C06,C07 tier=quick kind=bounded bound="len<=3" vars="v:Vec<u16>, pos0<16" fns="impls/vec.rs,ser/helpers.rs:serialize_slice_zero,deser/helpers.rs:deserialize_full_vec_zero"
@@ -156,6 +159,8 @@ rt_full_str!(rt_full_box_str, Box<str>, 3, 48, 5);
 rt_full!(rt_full_vec_unit, Vec<()>, 3, 48, 5);
 // @h rt_full_vec_z8 props=C01,C05,C06,C07 tier=thorough kind=bounded bound="len<=2" vars="v:Vec<Z8>, pos0<16" fns="impls/vec.rs,derive:Z8"
 rt_full!(rt_full_vec_z8, Vec<Z8>, 2, 48, 5);
+// @h rt_full_vec_zp props=C01,C05,C06,C07 tier=quick kind=bounded bound="len<=1" vars="v:Vec<ZP> (packed: align_of 1, unit 8), pos0<16" fns="ser/helpers.rs:serialize_slice_zero,derive:ZP"
+rt_full!(rt_full_vec_zp, Vec<ZP>, 1, 48, 9);
 // @h rt_full_d1 props=C01,C05,C06,C07 tier=thorough kind=bounded bound="len<=2" vars="v:D1{u8,Vec<u16>,Option<u32>}, pos0<16" fns="derive:D1"
 rt_full!(rt_full_d1, D1, 2, 48, 4);
 // @h rt_full_gm props=C01,C05,C06,C07 tier=quick kind=bounded bound="len<=2" vars="v:GM<u16>{Vec<u16>,u16}, pos0<16" fns="derive:GM"
